@@ -25,18 +25,19 @@ type OpSpec struct {
 	Signer             *Key // signs update / recover / deactivate
 
 	// overrides
-	PayloadKey     map[string]interface{} // JWK placed in the signed data (default Signer.JWK())
-	Reveal         *string                // default reveal(PayloadKey)
-	DeltaHash      *string                // default hash(delta)
-	Headers        map[string]interface{} // default {"alg": Signer.Alg()}
-	SignedSuffix   *string                // deactivate: default Suffix
-	OmitDelta      bool
-	RequestDelta   interface{}                           // delta placed in the request instead of the honest one (hash stays honest)
-	PayloadEdit    func(p map[string]interface{})        // edit signed payload before signing
-	PostJWS        func(jws string) string               // tamper after signing
-	RequestEdit    func(req map[string]interface{})      // edit the request object before serialization
-	SuffixDataEdit func(sd map[string]interface{})       // create: edit suffix data before hashing
-	RawRequest     func(b []byte) []byte                 // tamper with the final bytes
+	PayloadKey         map[string]interface{}     // JWK placed in the signed data (default Signer.JWK())
+	Reveal             *string                    // default reveal(PayloadKey)
+	DeltaHash          *string                    // default hash(delta)
+	PostBuildDeltaHash func(honest string) string // derive the recorded delta hash from the honest one
+	Headers            map[string]interface{}     // default {"alg": Signer.Alg()}
+	SignedSuffix       *string                    // deactivate: default Suffix
+	OmitDelta          bool
+	RequestDelta       interface{}                      // delta placed in the request instead of the honest one (hash stays honest)
+	PayloadEdit        func(p map[string]interface{})   // edit signed payload before signing
+	PostJWS            func(jws string) string          // tamper after signing
+	RequestEdit        func(req map[string]interface{}) // edit the request object before serialization
+	SuffixDataEdit     func(sd map[string]interface{})  // create: edit suffix data before hashing
+	RawRequest         func(b []byte) []byte            // tamper with the final bytes
 }
 
 // Built is the result of building an OpSpec.
@@ -62,7 +63,9 @@ func (s *OpSpec) Build(r *fw.Rand) *Built {
 		delta = map[string]interface{}{"patches": s.Patches}
 	}
 	b.Delta = delta
-	if s.DeltaHash != nil {
+	if s.PostBuildDeltaHash != nil && s.Type != "deactivate" {
+		b.DeltaHash = s.PostBuildDeltaHash(oracle.MustModelHash(s.Code, delta))
+	} else if s.DeltaHash != nil {
 		b.DeltaHash = *s.DeltaHash
 	} else if s.Type != "deactivate" {
 		b.DeltaHash = oracle.MustModelHash(s.Code, delta)
